@@ -43,6 +43,98 @@ static const char *type_info_to_string_simple(TypeInfo type) {
     }
 }
 
+// A struct variable is kept twice: in its own struct_members and in the member
+// variables next to it ("t.n", "t.ps[1]", "t.ps[1].x"). A store into an
+// element of a struct-array member (t.ps[1].x = v) only reaches the member
+// variables, so the elements held in struct_members are brought up to date
+// before the value of the variable is copied out of it, as
+// copy-initialisation, argument passing and return do for their source.
+//
+// Only a struct type with a struct-array member somewhere inside it can be
+// behind in this way. The synchronisation looks the member variables up by
+// name, so it is only done when the variable has its complete set of them in
+// the scope that holds the variable itself: a by-value parameter or a match
+// binding has no variables for the members of its elements, and its
+// struct_members are complete as they are.
+static bool has_all_member_variables(
+    Interpreter &interpreter, const std::map<std::string, Variable> &owner,
+    const std::string &path, const std::string &struct_type_name,
+    bool &has_struct_array) {
+    const StructDefinition *struct_def = interpreter.find_struct_definition(
+        interpreter.resolve_typedef(struct_type_name));
+    if (!struct_def) {
+        return false;
+    }
+    for (const auto &member : struct_def->members) {
+        std::string member_path = path + "." + member.name;
+        if (owner.find(member_path) == owner.end()) {
+            return false;
+        }
+        bool is_array = member.array_info.is_array();
+        bool holds_structs =
+            !member.is_pointer && !member.type_alias.empty() &&
+            (is_array ? member.array_info.base_type == TYPE_STRUCT
+                      : member.type == TYPE_STRUCT);
+        if (!holds_structs) {
+            continue;
+        }
+        std::string member_type_name =
+            member.type_alias.substr(0, member.type_alias.find('['));
+        if (!is_array) {
+            if (!has_all_member_variables(interpreter, owner, member_path,
+                                          member_type_name,
+                                          has_struct_array)) {
+                return false;
+            }
+            continue;
+        }
+        if (member.array_info.dimensions.size() != 1 ||
+            member.array_info.dimensions[0].size <= 0) {
+            return false;
+        }
+        has_struct_array = true;
+        for (int i = 0; i < member.array_info.dimensions[0].size; i++) {
+            std::string element_path =
+                member_path + "[" + std::to_string(i) + "]";
+            if (owner.find(element_path) == owner.end() ||
+                !has_all_member_variables(interpreter, owner, element_path,
+                                          member_type_name,
+                                          has_struct_array)) {
+                return false;
+            }
+        }
+    }
+    return true;
+}
+
+static void refresh_struct_array_elements(Interpreter &interpreter,
+                                          const std::string &name,
+                                          const Variable *var) {
+    const std::map<std::string, Variable> *owner = nullptr;
+    auto &scopes = interpreter.get_scope_stack();
+    for (auto scope = scopes.rbegin(); scope != scopes.rend() && !owner;
+         ++scope) {
+        auto found = scope->variables.find(name);
+        if (found != scope->variables.end() && &found->second == var) {
+            owner = &scope->variables;
+        }
+    }
+    if (!owner) {
+        auto &globals = interpreter.get_global_scope().variables;
+        auto found = globals.find(name);
+        if (found != globals.end() && &found->second == var) {
+            owner = &globals;
+        }
+    }
+    bool has_struct_array = false;
+    if (owner &&
+        has_all_member_variables(interpreter, *owner, name,
+                                 var->struct_type_name, has_struct_array) &&
+        has_struct_array) {
+        interpreter.sync_struct_members_from_direct_access(name);
+    }
+}
+
 TypedValue evaluate_number_literal_typed(const ASTNode *node,
                                          const InferredType &inferred_type) {
     if (node->is_float_literal) {
@@ -160,6 +252,7 @@ TypedValue evaluate_variable_typed(const ASTNode *node,
         }
         return TypedValue(var->str_value, InferredType(TYPE_STRING, "string"));
     } else if (var->type == TYPE_STRUCT) {
+        refresh_struct_array_elements(interpreter, node->name, var);
         return TypedValue(*var,
                           InferredType(TYPE_STRUCT, var->struct_type_name));
     } else if (var->is_enum) {
@@ -343,6 +436,7 @@ int64_t evaluate_variable(const ASTNode *node, Interpreter &interpreter) {
 
     // 構造体変数の場合、ReturnExceptionをスローして構造体データを返す
     if (var->type == TYPE_STRUCT) {
+        refresh_struct_array_elements(interpreter, node->name, var);
         throw ReturnException(*var);
     }
 
